@@ -124,7 +124,7 @@ def run(ctx):
     # ---- leg B ---------------------------------------------------------------------------------
     items = []
     rng = ctx.rng
-    for k in range(ctx.pick(6000, 150000)):
+    for k in range(ctx.pick(6000, 120000)):
         asgi = bool(k & 1)
         trace, case, rec, res, got = H.random_trace(rng, asgi=asgi, ncomp=rng.randint(4, 6), maxhooks=3, regs=H.C3REGS,
                                              classes=H.ALL_CLASSES)
